@@ -10,6 +10,7 @@ use prio::field::{Field128, Field64, FieldElementWithInteger};
 use prio::flp::gadgets::{Mul, ParallelSum, ParallelSumMultithreaded};
 use prio::flp::types::{Average, Count, Histogram, L1BoundSum, MultihotCountVec, Sum, SumVec};
 use prio::flp::{Flp, FlpError, Gadget, Type};
+use prio::topology::ping_pong::PingPongContinuation;
 use prio::vdaf::prio3::Prio3;
 use prio::vdaf::test_utils::TestVectorClient;
 use prio::vdaf::xof::XofTurboShake128;
@@ -80,6 +81,9 @@ pub trait SimVdaf<const VK: usize>: Aggregator<VK, 16> + Collector + Sized {
     fn enc_state(s: &Self::VerifyState) -> Result<Vec<u8>, CodecError>;
     fn state_len_hint(s: &Self::VerifyState) -> Option<usize>;
     fn dec_state(&self, agg_id: usize, b: &[u8]) -> Result<Self::VerifyState, CodecError>;
+    fn enc_cont(c: &PingPongContinuation<VK, 16, Self>) -> Result<Vec<u8>, CodecError>;
+    fn cont_len_hint(c: &PingPongContinuation<VK, 16, Self>) -> Option<usize>;
+    fn dec_cont(&self, agg_id: usize, b: &[u8]) -> Result<PingPongContinuation<VK, 16, Self>, CodecError>;
 }
 
 impl<T: Type, const S: usize> SimVdaf<S> for Prio3<T, XofTurboShake128, S>
@@ -95,6 +99,15 @@ where
     }
     fn dec_state(&self, agg_id: usize, b: &[u8]) -> Result<Self::VerifyState, CodecError> {
         prio::vdaf::prio3::Prio3VerifyState::get_decoded_with_param(&(self, agg_id), b)
+    }
+    fn enc_cont(c: &PingPongContinuation<S, 16, Self>) -> Result<Vec<u8>, CodecError> {
+        c.get_encoded()
+    }
+    fn cont_len_hint(c: &PingPongContinuation<S, 16, Self>) -> Option<usize> {
+        c.encoded_len()
+    }
+    fn dec_cont(&self, agg_id: usize, b: &[u8]) -> Result<PingPongContinuation<S, 16, Self>, CodecError> {
+        PingPongContinuation::get_decoded_with_param(&(self, agg_id), b)
     }
 }
 
@@ -120,7 +133,7 @@ pub trait Adapter<V: Vdaf> {
     fn out_len(&self, ap: &ApSpec) -> usize;
     fn layout(&self, kind: Kind, agg: usize, round: u8, ap: &ApSpec) -> Vec<Region>;
     /// build an output share of a wrong length from raw element bytes (for refusal checks)
-    fn wrong_len_output(&self, bytes: &[u8]) -> Option<V::OutputShare>;
+    fn wrong_len_output(&self, bytes: &[u8], ap: &ApSpec, other_level: bool) -> Option<V::OutputShare>;
 }
 
 // ---- Byzantine client seam: a Type that encodes a raw field vector verbatim --------------------
@@ -358,8 +371,11 @@ where
         v
     }
     #[allow(deprecated)]
-    fn wrong_len_output(&self, bytes: &[u8]) -> Option<prio::vdaf::OutputShare<<C::T as Flp>::Field>> {
+    fn wrong_len_output(&self, bytes: &[u8], _ap: &ApSpec, other_level: bool) -> Option<prio::vdaf::OutputShare<<C::T as Flp>::Field>> {
         use prio::field::FieldElement;
+        if other_level {
+            return None;
+        }
         <<C::T as Flp>::Field as FieldElement>::byte_slice_into_vec(bytes).ok().map(prio::vdaf::OutputShare::from)
     }
 }
@@ -495,6 +511,11 @@ fn dispatch_inner<Vis: Visitor>(inst: &Inst, vis: Vis) -> Result<Vis::Out, Build
         ("l1", _) => {
             let t = L1BoundSum::<Field128, PS128>::new(max, len, chunk).map_err(flp_err)?;
             go_p3(inst, CL1(t), use_named.then(|| Prio3::new_l1_bound_sum(n, max, len, chunk)), 7, vis)
+        }
+        ("poplar1", _) => {
+            let vdaf = prio::vdaf::poplar1::Poplar1::new_turboshake128(len);
+            let ad = crate::inst_poplar::PopAd { inst: inst.clone() };
+            Ok(vis.visit::<_, _, 32>(&vdaf, &ad))
         }
         (c, _) => Err(BuildErr::Unknown(format!("unknown class {c}"))),
     }
